@@ -15,17 +15,18 @@ Notation reach := (reach H).
 Notation VInv := (VInv H).
 
 Lemma step_Inv nv s h d o s' : Inv nv s h d -> VInv s h d -> step s o = Ok s' ->
-  exists h' d', Inv nv s' h' d' /\ VInv s' h' d'.
+  exists h' d', Inv nv s' h' d' /\ VInv s' h' d' /\
+    match o with OPre _ _ => exists r, h' = h ++ [r] | _ => h' = h end.
 Proof.
   intros I V E. destruct o.
-  - exists h, d. split; [eapply step_OVal; eauto|eapply vstep_OVal; eauto].
+  - exists h, d. split; [eapply step_OVal; eauto|split; [eapply vstep_OVal; eauto|reflexivity]].
   - destruct (step_OPre H H_len _ _ _ _ _ _ _ I E) as (r & I' & _ & _ & _ & _ & Ph & _ & Hx & Ev & Ei).
-    exists (h ++ [r]), d. split; [exact I'|]. eapply vstep_OPre; eauto.
-  - exists h, d. split; [eapply step_OFlush; eauto|eapply vstep_OFlush; eauto].
-  - exists h, d. split; [eapply step_OSyncStart; eauto|eapply vstep_OSyncStart; eauto].
-  - exists h, d. split; [eapply step_OSyncV; eauto|eapply vstep_OSyncV; eauto].
-  - exists h, (precommitted s). split; [eapply (proj1 (step_OSyncTx H H_len _ _ _ _ _ I E))|eapply vstep_OSyncTx; eauto].
-  - exists h, d. split; [eapply step_OSyncC; eauto|eapply vstep_OSyncC; eauto].
+    exists (h ++ [r]), d. split; [exact I'|]. split; [eapply vstep_OPre; eauto|eauto].
+  - exists h, d. split; [eapply step_OFlush; eauto|split; [eapply vstep_OFlush; eauto|reflexivity]].
+  - exists h, d. split; [eapply step_OSyncStart; eauto|split; [eapply vstep_OSyncStart; eauto|reflexivity]].
+  - exists h, d. split; [eapply step_OSyncV; eauto|split; [eapply vstep_OSyncV; eauto|reflexivity]].
+  - exists h, (precommitted s). split; [eapply (proj1 (step_OSyncTx H H_len _ _ _ _ _ I E))|split; [eapply vstep_OSyncTx; eauto|reflexivity]].
+  - exists h, d. split; [eapply step_OSyncC; eauto|split; [eapply vstep_OSyncC; eauto|reflexivity]].
 Qed.
 
 Lemma step_cfg s o s' : step s o = Ok s' -> s_cfg s' = s_cfg s.
@@ -43,9 +44,9 @@ Proof.
   try (apply Q in E; subst s'; reflexivity).
 Qed.
 
-Lemma step_ready s o s' : step s o = Ok s' -> ready s -> ready s'.
+Lemma step_ready nv s h d o s' : Inv nv s h d -> step s o = Ok s' -> ready s -> ready s'.
 Proof.
-  unfold ready. intros E R. unfold Protocol.step in E. cbv zeta in E.
+  unfold ready. intros I E R. unfold Protocol.step in E. cbv zeta in E.
   assert (Q: forall a b, @Ok st a = Ok b -> a = b) by (intros ? ? Q; congruence).
   destruct o.
   - destruct (nth_error (vls s) v); [|discriminate]. apply Q in E. subst s'. exact R.
@@ -68,23 +69,25 @@ Proof.
     destruct (f_setoffset (cml s) (44 * committed s)); [|discriminate].
     apply Q in E. subst s'. unfold precommitted. cbn [asize committed pbuf].
     assert (a_size a = asize s).
-    { destruct (c_ahtsync (s_cfg s)); [apply aht_sync_size in Ea; exact Ea|apply Q in Ea; subst a; reflexivity]. }
+    { destruct (c_ahtsync (s_cfg s)); [apply aht_sync_size in Ea; exact Ea|].
+      assert (a = aht_of s) by congruence. subst a. reflexivity. }
     unfold precommitted in R. lia.
   - destruct (phase_ s) as [| |t] eqn:Ep; try discriminate. apply Q in E. subst s'.
-    unfold precommitted. cbn [asize committed pbuf length]. admit.
-Admitted.
+    unfold precommitted. cbn [asize committed pbuf length].
+    pose proof (v_cph _ _ _ _ _ I) as Cph. rewrite Ep in Cph. destruct Cph as (Et & _). lia.
+Qed.
 
 Lemma reach_Inv c nv s :
   c_prealloc c = false -> 0 < c_thld c -> reach c nv s ->
   s_cfg s = c /\ exists h d, Inv nv s h d /\ VInv s h d.
 Proof.
-  intros Hp Ht R. induction R as [|s o s' R IH E|s im upto s' R IH Cr E].
+  intros Hp Ht R. induction R as [|s o s' R IH Rd E|s im upto s' R IH Cr E].
   - split; [reflexivity|]. exists [], 0. split; [apply Inv_init; auto|apply VInv_init].
   - destruct IH as (Ec & h & d & I & V). split; [rewrite (step_cfg _ _ _ E); exact Ec|].
-    eapply step_Inv; eauto.
+    destruct (step_Inv _ _ _ _ _ _ I V E) as (h' & d' & I' & V' & _). eauto.
   - destruct IH as (Ec & h & d & I & V).
     destruct (recover_ok H H_len _ _ _ _ _ upto I V Cr)
-      as (s2 & c' & rs & E2 & _ & _ & _ & _ & I2 & _ & Ecfg & _ & _ & _ & _ & _ & _ & _ & _ & _ & V2).
+      as (s2 & c' & rs & E2 & _ & _ & _ & _ & I2 & _ & Ecfg & _ & _ & _ & _ & _ & _ & _ & _ & _ & V2 & _).
     rewrite Ec in E2. assert (s2 = s') by congruence. subst s2. split; [congruence|]. eauto.
 Qed.
 
@@ -195,7 +198,7 @@ Proof.
   intros Hp Ht R Cr. destruct (reach_Inv _ _ _ Hp Ht R) as (Ec & h & d & I & V).
   unfold recover.
   destruct (recover_ok H H_len _ _ _ _ _ (N.to_nat (len (i_txl im))) I V Cr)
-    as (s' & c' & rs & E & Hc1 & Hc2 & Ecm & Eack & I' & Eph & Ecfg & Etx & Evl & Ecd & Ecp & Ecb & Tcm & Ttx & Ltx & Hup & V').
+    as (s' & c' & rs & E & Hc1 & Hc2 & Ecm & Eack & I' & Eph & Ecfg & Etx & Evl & Ecd & Ecp & Ecb & Tcm & Ttx & Ltx & Hup & V' & _).
   rewrite Ec in E. exists s'. split; [exact E|]. split; [eapply r_crash; eauto|].
   pose proof (v_ack _ _ _ _ _ I) as Hack.
   split; [lia|]. split; [congruence|]. split; [exact Eph|].
@@ -223,15 +226,18 @@ Proof.
     + intros k Hk. eapply Inv_values; eauto.
 Qed.
 
-Lemma reach_run c nv s ops s' : reach c nv s -> run H s ops = Ok s' -> reach c nv s'.
+Lemma reach_run c nv s ops s' :
+  c_prealloc c = false -> 0 < c_thld c ->
+  reach c nv s -> ready s -> run H s ops = Ok s' -> reach c nv s' /\ ready s'.
 Proof.
-  revert s; induction ops as [|o ops IH]; intros s R E; cbn [run] in E.
-  - congruence.
+  intros Hp Ht. revert s; induction ops as [|o ops IH]; intros s R Rd E; cbn [run] in E.
+  - assert (s' = s) by congruence. subst. auto.
   - destruct (step s o) as [s1| |] eqn:E1; cbn [bind] in E; try discriminate.
-    eapply IH; [|exact E]. eapply r_step; eauto.
+    destruct (reach_Inv _ _ _ Hp Ht R) as (_ & h & d & I & _).
+    eapply IH; [|eapply step_ready; eauto|exact E]. eapply r_step; eauto.
 Qed.
 
-Lemma reach0_reach c nv s : reach0 H c nv s -> reach c nv s.
-Proof. intros (ops & E). eapply reach_run; [apply r_init|exact E]. Qed.
+Lemma reach0_reach c nv s : c_prealloc c = false -> 0 < c_thld c -> reach0 H c nv s -> reach c nv s /\ ready s.
+Proof. intros Hp Ht (ops & E). eapply reach_run; eauto; [apply r_init|reflexivity]. Qed.
 
 End TH.
